@@ -4,3 +4,5 @@ import SodiumVerif.Model.Gc
 import SodiumVerif.Model.GcScript
 import SodiumVerif.Model.Sched
 import SodiumVerif.Model.SchedScript
+import SodiumVerif.Spec.Denot
+import SodiumVerif.Spec.Script
